@@ -24,7 +24,7 @@ pub(crate) fn execute(job: Job) {
       let s = Arc::new(Slot { job: Mutex::new(Some(job)), cv: Condvar::new() });
       std::thread::Builder::new()
         .name("sim-task".into())
-        .stack_size(1 << 20)
+        .stack_size(64 << 20)
         .spawn(move || loop {
           let job = {
             let mut g = s.job.lock().unwrap_or_else(|e| e.into_inner());
